@@ -73,6 +73,33 @@ def gen_vector(rng, idx, kind=None, uniq="", formats=None):
     return v
 
 
+STANDARD = ["common.Connection", "common.DriverInfo", "focuser.AbsolutePosition", "focuser.RelativePosition", "focuser.FocusMax",
+            "focuser.FocusMotion", "ccd.Exposure", "ccd.UploadMode"]
+
+
+def _factory(path):
+    from indi.device.properties import standard
+    mod, fn = path.split(".")
+    return getattr(getattr(standard, mod), fn)
+
+
+def std_vector_spec(path, attr):
+    """Spec of one of the library's ready-made standard properties, read off the definition object it returns."""
+    d = _factory(path)()
+    kind = type(d).__name__.replace("Vector", "")
+    v = {"attr": attr, "kind": kind, "name": d.name, "label": d.label if d.label != d.name else None, "state": d.state,
+         "perm": d.perm, "timeout": d.timeout, "enabled": bool(d.enabled), "factory": path, "elements": []}
+    for k, e in d.elements.items():
+        el = {"attr": k, "name": e.name, "label": e.label if e.label != e.name else None, "default": e.default, "enabled": bool(e.enabled)}
+        if kind == "Number":
+            el.update(format=e.format, min=e.min, max=e.max, step=e.step)
+        v["elements"].append(el)
+    if kind == "Switch":
+        v["rule"] = d.rule
+        v["default_on"] = [e.name for e in d.elements.values() if e.default == "On"] or None
+    return v
+
+
 def gen_spec(rng, name="DEV", depth=None, max_groups=3, formats=None, kinds=None):
     depth = depth if depth is not None else rng.choice([1, 1, 2, 3])
     levels = []
@@ -95,6 +122,12 @@ def gen_spec(rng, name="DEV", depth=None, max_groups=3, formats=None, kinds=None
             vidx += 1
             groups.append({"attr": base_g["attr"], "name": base_g["name"] + "_OVR", "enabled": True, "vectors": vectors})
         levels.append({"groups": groups})
+    if kinds is None and rng.random() < 0.3:
+        # a group made of the library's ready-made standard properties (each at most once per device: fixed names)
+        picks = rng.sample(STANDARD, rng.randrange(1, 5))
+        levels[rng.randrange(len(levels))]["groups"].append(
+            {"attr": "std", "name": "STANDARD", "enabled": rng.random() < 0.85,
+             "vectors": [std_vector_spec(p, f"s{k}") for k, p in enumerate(picks)]})
     spec = {"name": name, "levels": levels}
     if depth > 1 and rng.random() < 0.5:
         spec["instantiate_bases"] = True      # base classes of the chain are used as drivers too (instances created base first)
@@ -148,6 +181,8 @@ def _element_def(kind, e):
 
 def _vector_def(v):
     from indi.device import properties
+    if v.get("factory"):
+        return _factory(v["factory"])()
     cls = getattr(properties, v["kind"] + "Vector")
     kw = {"elements": {e["attr"]: _element_def(v["kind"], e) for e in v["elements"]}}
     for k in ("label", "state", "perm", "timeout"):
@@ -207,8 +242,17 @@ def vector_of(drv, gattr, vattr):
     return group_of(drv, gattr).vectors[vattr]
 
 
+def element_in(vec, eattr):
+    """Element `eattr` of a vector instance.  The library only offers attribute access, which an element key such as
+    'name' (standard DRIVER_INFO) loses against the vector's own attribute: fall back to the instance dictionary."""
+    el = getattr(vec, eattr, None)
+    if el is None or not hasattr(el, "set_value"):
+        el = vec._elements[eattr]
+    return el
+
+
 def element_of(drv, gattr, vattr, eattr):
-    return getattr(vector_of(drv, gattr, vattr), eattr)
+    return element_in(vector_of(drv, gattr, vattr), eattr)
 
 
 def locate(spec):
